@@ -298,11 +298,42 @@ func (u *Url) newUrlSearchParams() {
 }
 
 func (u *Url) IsIPv4() bool {
-	return u.isIPv4
+	// Derived from the components rather than from the flag cached by the host parser: the flag is neither reset
+	// when a later setter installs a domain nor copied when a host is taken over from a base URL.
+	return u.host != nil && u.IsSpecialScheme() && isSerializedIPv4(*u.host)
 }
 
 func (u *Url) IsIPv6() bool {
-	return u.isIPv6
+	return u.host != nil && strings.HasPrefix(*u.host, "[")
+}
+
+// isSerializedIPv4 reports whether s is the output of the IPv4 serializer: four dot-separated decimal numbers
+// in 0..255 without leading zeros. The host of a special URL has this shape only if it went through the IPv4 parser.
+func isSerializedIPv4(s string) bool {
+	octets, digits, value := 0, 0, 0
+	for i := 0; i < len(s); i++ {
+		c := s[i]
+		switch {
+		case c >= '0' && c <= '9':
+			if digits > 0 && value == 0 {
+				return false
+			}
+			value = value*10 + int(c-'0')
+			digits++
+			if value > 255 {
+				return false
+			}
+		case c == '.':
+			if digits == 0 {
+				return false
+			}
+			octets++
+			digits, value = 0, 0
+		default:
+			return false
+		}
+	}
+	return digits > 0 && octets == 3
 }
 
 // Clone returns a deep copy of the URL.
